@@ -74,6 +74,10 @@ type pathState struct {
 
 	forks int
 	callersHook func(in *Interp, fr *frame, skip *Term, nframes int)
+	dom      map[*Term]*byteSet
+	rel      map[*Term]bool
+	varsMemo map[*Term][]*Term
+	domDecided int
 }
 
 type Explorer struct {
@@ -186,6 +190,7 @@ func (ps *pathState) assertLit(in *Interp, c *Term, v bool) {
 	}
 	in.solver.Assert(lit)
 	ps.pcLen++
+	ps.noteLiteral(lit)
 }
 
 func (ps *pathState) installPreModel(in *Interp) {
@@ -260,6 +265,47 @@ func (ps *pathState) decideBool(in *Interp, c *Term) bool {
 		ps.setKnown(in, c, val)
 		ps.installPreModel(in)
 		return val
+	}
+	// single-variable byte conditions are decided on the variable's domain
+	if v, tset, fset, ok := ps.splitByDomain(c); ok {
+		if tset.empty() || fset.empty() {
+			val := fset.empty()
+			d := int64(2)
+			if val {
+				d |= 1
+			}
+			ps.trace = append(ps.trace, d)
+			ps.setKnown(in, c, val)
+			ps.domDecided++
+			return val
+		}
+		if !ps.rel[v] {
+			// both outcomes are feasible (the domain of an unrelated variable is exact)
+			ps.domDecided++
+			ps.forks++
+			alt := make([]int64, len(ps.trace)+1)
+			copy(alt, ps.trace)
+			alt[len(ps.trace)] = 0 // the false side
+			it := workItem{prefix: alt}
+			if ps.modelOK {
+				m2 := ps.modelVec(in, ps.model)
+				for i, x := range in.tf.Vars {
+					if x == v {
+						m2[i] = uint64(fset.first())
+					}
+				}
+				it.model = m2
+			}
+			ps.ex.noteFork(in)
+			ps.ex.push(it)
+			ps.trace = append(ps.trace, 1)
+			ps.assertLit(in, c, true)
+			ps.setKnown(in, c, true)
+			if ps.modelOK {
+				ps.model[v] = uint64(tset.first())
+			}
+			return true
+		}
 	}
 	ps.ensureModel(in)
 	mv := c.Eval(ps.model, map[*Term]uint64{}) != 0
@@ -363,6 +409,20 @@ func (ps *pathState) assume(in *Interp, c *Term) {
 			panic(in.abort("infeasible", "assumption contradicts path"))
 		}
 		return
+	}
+	if _, tset, _, ok := ps.splitByDomain(c); ok && ps.pos >= len(ps.prefix) {
+		if tset.empty() {
+			panic(in.abort("infeasible", "assumption unsatisfiable on the byte domain"))
+		}
+		vs := ps.termVars(c)
+		if !ps.rel[vs[0]] {
+			if ps.modelOK && c.Eval(ps.model, map[*Term]uint64{}) == 0 {
+				ps.model[vs[0]] = uint64(tset.first())
+			}
+			ps.assertLit(in, c, true)
+			ps.setKnown(in, c, true)
+			return
+		}
 	}
 	if ps.pos < len(ps.prefix) {
 		// replaying a prefix: this assumption was checked when the parent path ran
